@@ -2,6 +2,8 @@ package world
 
 import (
 	"fmt"
+	"runtime/debug"
+	"strings"
 
 	"go.sia.tech/core/consensus"
 	"go.sia.tech/core/types"
@@ -11,11 +13,35 @@ import (
 func guard(fn func()) (panicked string) {
 	defer func() {
 		if r := recover(); r != nil {
-			panicked = fmt.Sprint(r)
+			panicked = fmt.Sprint(r) + " @ " + panicSite(debug.Stack())
 		}
 	}()
 	fn()
 	return ""
+}
+
+// panicSite extracts the library frames nearest to the panic from a stack
+// trace ("pkg.Func < pkg.Func < ..."), so that a finding can be identified by
+// its call site.
+func panicSite(stack []byte) string {
+	var frames []string
+	for _, line := range strings.Split(string(stack), "\n") {
+		if !strings.HasPrefix(line, "go.sia.tech/core/") {
+			continue
+		}
+		f := strings.TrimPrefix(line, "go.sia.tech/core/")
+		if i := strings.LastIndex(f, "("); i > 0 {
+			f = f[:i]
+		}
+		frames = append(frames, f)
+		if len(frames) == 4 {
+			break
+		}
+	}
+	if len(frames) == 0 {
+		return "outside the library"
+	}
+	return strings.Join(frames, " < ")
 }
 
 // txnSupplement builds the supplement of a single v1 transaction from the
